@@ -214,7 +214,8 @@ def strategy():
                          '/', '/x', 'text/plain', '1.0', 'utf-8', '_',
                          'latin1', 'UTF-8', 'utf8', 'U8', 'L1', 'ASCII',
                          'IBM037', 'utf_16', 'UTF-16LE', 'json', 'dos',
-                         '9' * 25, '-0', '1e3', '0x10']))
+                         '9' * 25, '-0', '1e3', '0x10', '9' * 4300,
+                         '9' * 4301, '1' + '0' * 5000, '-' + '9' * 4400]))
     junk = [b'%', b'%s', b'%(x)s', b'{', b'{0}', b'\\', b'+', b':', b'#', b' ', b',', b'=', b'\t', b'\xc3\xa9', b'\xff',
             b'$', b'"', b'\r', b'\x00', b'a', b'9', b'/', b'.', b';', b'(']
 
